@@ -23,6 +23,8 @@ def c_add_single(item_cls, items_field, len_attrs):
 
 
 CONTRACTS = {
+    "basictdf.tdfForcePlatformsData.ForcePlatformsDataBlock.add_platform": c_add_pair(
+        "basictdf.tdfForcePlatformsData.ForcePlatformData", "_platforms", "_plat_map", type_exc="ValueError"),
     "basictdf.tdfData3D.Data3D.add_track": c_add_single("basictdf.tdfData3D.MarkerTrack", "_tracks", ("nFrames", "nFrames")),
     "basictdf.tdfForce3D.ForceTorque3D.add_track": c_add_single("basictdf.tdfForce3D.ForceTorqueTrack", "_tracks", ("nFrames", "nFrames")),
 }
